@@ -99,16 +99,24 @@ void h_fe_negate(void) {
   VWITNESS(be_is_zero(out) && (a.n[0] | a.n[4]) != 0, "negation of a non-trivial zero"); VWITNESS(out[0] == 0x80, "mid-range result"); VREACH("end");
 }
 
-/* add: a, b of magnitude <= MAG; a + b is the canonical r congruent to value(a) + value(b) */
+/* add: a, b of magnitude <= MAG. The limb-wise sum represents exactly value(a) + value(b) with magnitude <= 2*MAG, so by
+ * h_fe_normalize (all patterns up to magnitude 32) its normalisation is (a + b) mod p; for MAG == 1 this is also checked end to end. */
 void h_fe_add(void) {
   secp256k1_fe a, b; fe_in(&a, MAG); fe_in(&b, MAG);
-  bn va, vb; fe_value(&va, &a); fe_value(&vb, &b);
+  bn va, vb, vu; fe_value(&va, &a); fe_value(&vb, &b);
   unsigned char out[32];
   bn vs = va; bn_add(&vs, &vb);
-  secp256k1_fe u = a; secp256k1_fe_add(&u, &b); secp256k1_fe_normalize(&u); secp256k1_fe_get_b32(out, &u);
-  VASSERT(bn_is_residue_mod_p(&vs, out), "add yields (a + b) mod p");
-  for (int i = 0; i < 32; i++) verif_observe(out[i]);
-  VWITNESS(be_is_zero(out) && a.n[0] != 0, "sum wraps to zero"); VWITNESS(vs.b[1] != 0, "sum exceeds 2^256"); VREACH("end");
+  secp256k1_fe u = a; secp256k1_fe_add(&u, &b);
+  fe_value(&vu, &u);
+  VASSERT(bn_cmp(&vu, &vs) == 0, "add: represented integer is exactly value(a) + value(b)");
+  VASSERT(u.n[0] <= 0xFFFFFFFFFFFFFULL * 4 * MAG && u.n[1] <= 0xFFFFFFFFFFFFFULL * 4 * MAG && u.n[2] <= 0xFFFFFFFFFFFFFULL * 4 * MAG && u.n[3] <= 0xFFFFFFFFFFFFFULL * 4 * MAG && u.n[4] <= 0x0FFFFFFFFFFFFULL * 4 * MAG, "add: magnitudes add up (no limb overflow)");
+  verif_observe(u.n[0] ^ u.n[4]);
+#if MAG == 1
+  secp256k1_fe_normalize(&u); secp256k1_fe_get_b32(out, &u);
+  VASSERT(bn_is_residue_mod_p(&vs, out), "add then normalize yields (a + b) mod p");
+  VWITNESS(be_is_zero(out) && a.n[0] != 0, "sum wraps to zero");
+#endif
+  VWITNESS(vs.b[1] != 0, "sum exceeds 2^256"); VREACH("end");
 }
 
 /* cmp_var / equal on operands of magnitude <= MAG after normalisation */
